@@ -22,6 +22,10 @@ def jobs():
             reach=['more', 'eof', 'oom', 'grown', 'compacted'], min_obligations=30, trusted=[SRC], timeout=1500, mem_gb=24,
             clauses=['token-relative offsets preserved across reset / compaction / growth', 'pointers inside the buffer', 'read_func called at most once with count >= 1 inside the free tail',
                      'no read after end of input', 'growth failure leaves the scanner unchanged']),
+        Job('get_first_char', 'parser_buf_h.c', entry='harness_get_first_char', enforce='get_first_char', tus=['parser.c'], defines={'MAXBUF': 32},
+            reach=['cr-first', 'plain-first'], min_obligations=20, timeout=900, mem_gb=16, replay=False,
+            trusted=['model of the character source (fc_read_func in the harness): delivers up to the requested count'],
+            clauses=['no unit delivered by the source is dropped when the input starts with CR', 'CR / CR LF at the very start read as one LF', 'error callback arguments valid']),
         Job('fold_fill_bounded', 'parser_fold_h.c', entry='harness_fold_fill', tus=['parser.c'], functions=['get_more_chars'], plain=True, no_loop_contracts=True,
             defines={'MAXFILL': 4}, thorough_defines={'MAXFILL': 7}, unwind=12, flags=['--object-bits', '10'],
             bounded='one buffer fill of at most MAXFILL (4 quick / 7 thorough) code units with arbitrary content (every arrangement of up to three CR LF pairs, lone CRs, '
